@@ -91,6 +91,55 @@ Example nesting_nonvacuous :
   cdepth t = 3 /\ walk 3 0 t = Some 0 /\ walk 2 0 t = None.
 Proof. vm_compute. repeat split. Qed.
 
+
+(* Bound on the Go recursion depth.  [vheight] counts every active decoder call, counted or not.  In a
+   schema the uncounted levels (arrays, dictionary indirection) come in runs whose length is bounded
+   by the type expression ([k]: a recursive type has to pass through a named struct or oneof); then
+   the guard bounds the recursion depth itself, not only the counted part of it. *)
+Fixpoint vheight (t : vtree) : N :=
+  match t with VNode _ ks => 1 + fold_right (fun k m => N.max (vheight k) m) 0 ks end.
+Definition vheights (ks : list vtree) : N := fold_right (fun k m => N.max (vheight k) m) 0 ks.
+
+Fixpoint runs_ok (k j : nat) (t : vtree) {struct t} : bool :=
+  match t with
+  | VNode true ks => forallb (runs_ok k k) ks
+  | VNode false ks => match j with O => false | S j' => forallb (runs_ok k j') ks end
+  end.
+
+Theorem height_bound : forall t k j, runs_ok k j t = true ->
+  vheight t <= (N.of_nat k + 1) * cdepth t + N.of_nat j.
+Proof.
+  induction t as [c ks HF] using vtree_ind'. intros k j Hok.
+  change (vheight (VNode c ks)) with (1 + vheights ks). rewrite cdepth_unfold.
+  destruct c.
+  - cbn [runs_ok] in Hok. rewrite forallb_forall in Hok.
+    assert (HB : vheights ks <= N.of_nat k + (N.of_nat k + 1) * cdepths ks).
+    { clear -HF Hok. induction HF as [|t ks Ht _ IH]; unfold vheights, cdepths in *; cbn [fold_right]; [lia|].
+      assert (H1 := Ht k k (Hok t (or_introl eq_refl))).
+      assert (H2 := IH (fun x Hx => Hok x (or_intror Hx))). nia. }
+    nia.
+  - destruct j as [|j']; cbn [runs_ok] in Hok; [discriminate|]. rewrite forallb_forall in Hok.
+    assert (HB : vheights ks <= N.of_nat j' + (N.of_nat k + 1) * cdepths ks).
+    { clear -HF Hok. induction HF as [|t ks Ht _ IH]; unfold vheights, cdepths in *; cbn [fold_right]; [lia|].
+      assert (H1 := Ht k j' (Hok t (or_introl eq_refl))).
+      assert (H2 := IH (fun x Hx => Hok x (or_intror Hx))). nia. }
+    lia.
+Qed.
+
+(* an accepted record never drives the recursion deeper than (k+1) * limit + k + 1 calls *)
+Corollary accepted_height_bound : forall t lim k, runs_ok k (S k) t = true -> walk lim 0 t = Some 0 ->
+  vheight t <= (N.of_nat k + 1) * lim + N.of_nat k + 1.
+Proof.
+  intros t lim k Hr Hw. rewrite decode_record_nesting in Hw.
+  destruct (N.leb_spec (cdepth t) lim) as [Hc|Hc]; [|discriminate].
+  assert (H := height_bound t k (S k) Hr). nia.
+Qed.
+
+Example vheight_nonvacuous :
+  let t := VNode true [VNode false [VNode true []; VNode true [VNode true []]]] in
+  runs_ok 1 2 t = true /\ vheight t = 4 /\ walk 3 0 t = Some 0.
+Proof. vm_compute. repeat split. Qed.
+
 (* The skeleton of a decoded wire tree: struct, oneof and multimap decoders call EnterNested;
    array decoders and the dictionary indirection do not. *)
 From Stef Require Import Wire.
